@@ -582,6 +582,32 @@ structure GlAcc where
   switch : Option Nat := none
   tune : Option Nat := none
 
+/-- `put(&mut slot, d)?` for the slot selected by the tile layer type; `none` =
+`TooManyGameLayers`, `some none` = a normal layer (`continue`) -/
+def glPut (acc : GlAcc) : TilemapType → Option (Option GlAcc)
+  | .normal .. => some none
+  | .game d => match acc.game with
+    | none => some (some { acc with game := some d }) | some _ => none
+  | .teleport d _ => match acc.teleport with
+    | none => some (some { acc with teleport := some d }) | some _ => none
+  | .speedup d _ => match acc.speedup with
+    | none => some (some { acc with speedup := some d }) | some _ => none
+  | .front d _ => match acc.front with
+    | none => some (some { acc with front := some d }) | some _ => none
+  | .switch d _ => match acc.switch with
+    | none => some (some { acc with switch := some d }) | some _ => none
+  | .tune d _ => match acc.tune with
+    | none => some (some { acc with tune := some d }) | some _ => none
+
+/-- the `match group_index_width_height { … }` of `game_layers` -/
+def glDims (i : Nat) (g : Group) (tm : Tilemap) (acc : GlAcc) : Res GlAcc :=
+  match acc.gwh with
+  | some (gi, gw, gh) =>
+    if i ≠ gi then .err "TooManyGameGroups"
+    else if gw ≠ tm.width ∨ gh ≠ tm.height then .err "InconsistentGameLayerDimensions"
+    else .ok acc
+  | none => .ok { acc with gameGroup := some g, gwh := some (i, tm.width, tm.height) }
+
 /-- one layer of group `i` in `game_layers` -/
 def glLayer (r : Reader) (i : Nat) (g : Group) (k : Nat) (acc : GlAcc) : Res GlAcc :=
   match layer r k with
@@ -590,37 +616,20 @@ def glLayer (r : Reader) (i : Nat) (g : Group) (k : Nat) (acc : GlAcc) : Res GlA
   | .ok l =>
     match l.t with
     | .tilemap tm =>
-      let put (slot : Option Nat) (d : Nat) : Option (Option Nat) :=
-        match slot with
-        | none => some (some d)
-        | some _ => none
-      let acc' : Option (Option GlAcc) :=
-        match tm.type with
-        | .normal .. => some none
-        | .game d => (put acc.game d).map fun x => some { acc with game := x }
-        | .teleport d _ => (put acc.teleport d).map fun x => some { acc with teleport := x }
-        | .speedup d _ => (put acc.speedup d).map fun x => some { acc with speedup := x }
-        | .front d _ => (put acc.front d).map fun x => some { acc with front := x }
-        | .switch d _ => (put acc.switch d).map fun x => some { acc with switch := x }
-        | .tune d _ => (put acc.tune d).map fun x => some { acc with tune := x }
-      match acc' with
+      match glPut acc tm.type with
       | none => .err "TooManyGameLayers"
       | some none => .ok acc
-      | some (some acc) =>
-        match acc.gwh with
-        | some (gi, gw, gh) =>
-          if i ≠ gi then .err "TooManyGameGroups"
-          else if gw ≠ tm.width ∨ gh ≠ tm.height then .err "InconsistentGameLayerDimensions"
-          else .ok acc
-        | none => .ok { acc with gameGroup := some g, gwh := some (i, tm.width, tm.height) }
-    | _ => .ok acc
+      | some (some acc) => glDims i g tm acc
+    | .quads _ => .ok acc
+    | .sounds _ => .ok acc
 
 def glLayers (r : Reader) (i : Nat) (g : Group) : Nat → Nat → GlAcc → Res GlAcc
   | 0, _, acc => .ok acc
   | n + 1, k, acc =>
     match glLayer r i g k acc with
     | .ok acc => glLayers r i g n (k + 1) acc
-    | e => e
+    | .err e => .err e
+    | .panic s => .panic s
 
 def glGroups (r : Reader) : Nat → Nat → GlAcc → Res GlAcc
   | 0, _, acc => .ok acc
@@ -631,7 +640,8 @@ def glGroups (r : Reader) : Nat → Nat → GlAcc → Res GlAcc
     | .ok g =>
       match glLayers r i g (g.layersEnd - g.layersStart) g.layersStart acc with
       | .ok acc => glGroups r n (i + 1) acc
-      | e => e
+      | .err e => .err e
+      | .panic s => .panic s
 
 /-- `Reader::game_layers()` -/
 def gameLayers (r : Reader) : Res GameLayers :=
